@@ -46,6 +46,9 @@ func clusterRouting(seed int64, variant string) (viol []rec.Violation, counts ma
 	fails := map[string]*fwdFail{}
 	nL, nR := 2, 2
 	sc := &routesim.Scenario{Class: "fair", Seed: seed, NL: nL, NR: nR, PeriodMS: 300, NWf: 11, Scripts: map[string][]routesim.Batch{}, Final: map[string]int64{}, Targets: map[string]routesim.TargetBeh{}, Window: 4}
+	if variant == "shard-moves" {
+		sc.Class, sc.Faults = "fault", []routesim.Fault{{Side: "none"}} // a moved stream may see re-sent tasks twice
+	}
 	recd := routesim.NewRecorder(sc)
 	hold := make(chan struct{}) // sources wait for this before sending tasks (ownership must have propagated)
 	mk := func(id, n int) *wireCluster {
@@ -53,8 +56,12 @@ func clusterRouting(seed int64, variant string) (viol []rec.Violation, counts ma
 		c := &wireCluster{id: id, n: n, recd: recd, script: map[int][]routesim.Batch{}, final: map[int]int64{}, lis: lis, inc: map[int]int{}, nwf: 11, hold: hold}
 		for i := 1; i <= n; i++ {
 			idb := int64(100 * i)
-			for k := 0; k < 10; k++ {
-				c.script[i] = append(c.script[i], routesim.Batch{IDs: []int64{idb}, High: idb + 1, WaitMS: 20})
+			nb, gap := 10, 20
+			if variant == "shard-moves" {
+				nb, gap = 40, 50 // two seconds of traffic: the stream moves in the middle of it
+			}
+			for k := 0; k < nb; k++ {
+				c.script[i] = append(c.script[i], routesim.Batch{IDs: []int64{idb}, High: idb + 1, WaitMS: gap})
 				idb++
 			}
 			c.final[i] = idb
@@ -138,6 +145,8 @@ func clusterRouting(seed int64, variant string) (viol []rec.Violation, counts ma
 		return ""
 	}
 	// shard i of each cluster connects to instance (i mod 2)
+	moveCtx, moveCancel := context.WithCancel(ctx) // the stream of L:1 (on instance b) that later moves to instance a
+	defer moveCancel()
 	connectStreams := func(inst int) {
 		for i := 1; i <= nR; i++ {
 			if i%2 == inst {
@@ -146,6 +155,10 @@ func clusterRouting(seed int64, variant string) (viol []rec.Violation, counts ma
 		}
 		for i := 1; i <= nL; i++ {
 			if i%2 == inst {
+				if variant == "shard-moves" && i == 1 {
+					go L.runTarget(moveCtx, ps[inst].out, i)
+					continue
+				}
 				go L.runTarget(ctx, ps[inst].out, i)
 			}
 		}
@@ -175,8 +188,22 @@ func clusterRouting(seed int64, variant string) (viol []rec.Violation, counts ma
 	// ownership reaches the other instance with the next memberlist push/pull (15 s for the local profile,
 	// 30 s at most); the intra-proxy streams are reconciled every second after that
 	time.Sleep(36 * time.Second)
+	movedAt := int64(-1)
 	close(hold)
 	deadline := time.Now().Add(40 * time.Second)
+	if variant == "shard-moves" {
+		// while tasks flow, Temporal re-opens the stream of target shard L:1 against the OTHER instance (its
+		// frontend / load balancer moved it): instance b loses the shard, instance a claims it with a newer
+		// registration; tasks for L:1 that reach b from then on have to cross to a. Ownership reaches b with
+		// the next push/pull, so this variant is given longer.
+		time.Sleep(600 * time.Millisecond)
+		moveCancel()
+		movedAt = recd.NowMS()
+		time.Sleep(300 * time.Millisecond)
+		go L.runTargetInc(ctx, ps[0].out, 1, 2)
+		counts["target_streams_moved_between_instances"]++
+		deadline = time.Now().Add(85 * time.Second)
+	}
 	for time.Now().Before(deadline) {
 		time.Sleep(200 * time.Millisecond)
 		if recd.AllFinalAcked() {
@@ -185,6 +212,28 @@ func clusterRouting(seed int64, variant string) (viol []rec.Violation, counts ma
 	}
 	time.Sleep(500 * time.Millisecond)
 	vs, cs, done := recd.Summary()
+	if movedAt >= 0 {
+		// tasks the sources sent a second or more after the stream had moved (the losing instance has seen its
+		// stream end by then; earlier ones fall into the window of the recorded finding F-C04a) must all arrive
+		sent, got := recd.SentAfter(movedAt + 1000)
+		counts["tasks_sent_after_the_move"] = int64(len(sent))
+		var missing []string
+		for _, m := range sent {
+			if !got[m] {
+				missing = append(missing, m)
+			}
+		}
+		counts["tasks_sent_after_the_move_delivered"] = int64(len(sent) - len(missing))
+		if len(missing) > 0 {
+			if len(missing) > 12 {
+				missing = append(missing[:12], "...")
+			}
+			viol = append(viol, rec.Violation{Prop: "C09", Sig: "cluster-routing:task-sent-after-stream-moved-never-delivered",
+				What: fmt.Sprintf("target shard L:1's stream moved from instance b to instance a; %d of %d tasks that the sources sent a second or more after the move never reached any target stream within 85 s: %v", len(sent)-int(counts["tasks_sent_after_the_move_delivered"]), len(sent), missing),
+				Witness: map[string]any{"variant": variant, "seed": seed, "missing": missing}})
+		}
+		done = done || len(missing) == 0 && len(sent) > 0
+	}
 	for k, v := range cs {
 		counts[k] = v
 	}
@@ -249,10 +298,10 @@ func TestClusterRouting(t *testing.T) {
 		if !rec.Want(idx, name) {
 			continue
 		}
-		variant := []string{"", "late-joiner", "late-joiner"}[idx%3]
+		variant := []string{"", "late-joiner", "shard-moves", "late-joiner"}[idx%4]
 		out.Begin(name, map[string]any{"instances": 2, "nL": 2, "nR": 2, "variant": variant})
 		viol, counts, inc := clusterRouting(rec.Mix(rec.Seed(), name), variant)
-		counts["runs_variant_"+map[string]string{"": "together", "late-joiner": "late_joiner"}[variant]] = 1
+		counts["runs_variant_"+map[string]string{"": "together", "late-joiner": "late_joiner", "shard-moves": "shard_moves"}[variant]] = 1
 		l := rec.Line{Case: name, Viol: dedupe(viol), Counts: counts, Class: name}
 		if inc != "" && len(viol) == 0 {
 			l.Verdict, l.Why = rec.Inconclusive, inc
